@@ -71,7 +71,7 @@ fn supervise(args: &[String]) -> i32 {
     }
     match culprit {
         Some(f) => {
-            let dir = verif_root().join("replays").join(&prop);
+            let dir = std::env::var_os("VERIF_REPLAY_OUT").map(PathBuf::from).unwrap_or_else(|| verif_root().join("replays")).join(&prop);
             let _ = std::fs::create_dir_all(&dir);
             let dst = dir.join(format!("death-{}", f.file_name().unwrap().to_string_lossy()));
             let _ = std::fs::copy(&f, &dst);
@@ -185,8 +185,11 @@ fn work(args: &[String]) -> i32 {
     }
     println!("{} {} seed={} evaluations={} distinct_nontrivial={} violations={} wall={:.1}s", def.id, tier.name(), ctx.seed, ev.stats.evaluations, ev.stats.nontrivial.len() as u64 + ev.extra_distinct, ev.violations.len(), ev.start.elapsed().as_secs_f64());
     if !ev.violations.is_empty() {
+        let mut seen = std::collections::BTreeSet::new();
         for (_, p) in &ev.violations {
-            println!("VIOLATION property={} replay={}", def.id, p.display());
+            if seen.insert(p.clone()) {
+                println!("VIOLATION property={} replay={}", def.id, p.display());
+            }
         }
         return 1;
     }
